@@ -198,4 +198,33 @@ theorem c16_single_stream_no_panic (evs : List Ev) (hrep : ∀ e ∈ evs, repair
       rw [hl] at hnd
       simp [hab] at hnd
 
+/-- The events an operation of the code can produce, given two facts about the source (regenerated by the translator,
+    `Spine.Generated.Heartbeat`): `startOne` — in StartHeartbeat the running test, the close of the old channel, the
+    creation of the new one and the go statement are ONE critical section; `stopOne` — in StopHeartbeat the running
+    test and the close are one critical section (of the same mutex). With a fact true the operation is its atomic
+    event; with a fact false it is the split events of the code as it was written. -/
+def admitted (startOne stopOne : Bool) : Ev → Bool
+  | .stopCheck _ => !stopOne || !startOne       -- the stop phase of a split start is a stopCheck / stopClose too
+  | .stopClose _ => !stopOne || !startOne
+  | .startMake _ => !startOne
+  | .startSpawn _ => !startOne
+  | .stopAtomic => stopOne
+  | .startAtomic => startOne
+  | .exit _ => true
+
+theorem admitted_true (e : Ev) : admitted true true e = repaired e := by cases e <;> rfl
+
+/-- all-schedule theorem parameterised by the source facts: when both operations are one critical section each,
+    every event list the code can produce is covered by `c16_single_stream_no_panic` -/
+theorem c16_single_stream_no_panic_of_facts (startOne stopOne : Bool) (h1 : startOne = true) (h2 : stopOne = true)
+    (evs : List Ev) (h : ∀ e ∈ evs, admitted startOne stopOne e = true) :
+    (run evs).panicked = false ∧ (live (run evs)).length ≤ 1 := by
+  subst h1; subst h2
+  exact c16_single_stream_no_panic evs (fun e he => by rw [← admitted_true]; exact h e he)
+
+/-- and when a fact is false the clause is lost: the witnesses of the code as written are admitted -/
+theorem admitted_split_refutes :
+    (∀ e ∈ [Ev.startMake 1, .startSpawn 1, .stopCheck 2, .stopCheck 3, .stopClose 2, .stopClose 3], admitted false false e = true) ∧
+    (∀ e ∈ [Ev.startMake 1, .startMake 2, .startSpawn 1, .startSpawn 2], admitted false true e = true) := by decide
+
 end Spine.HB
